@@ -20,11 +20,17 @@ Clauses and their status on the UNCHANGED tree:
   * per-category sums add up to the analysed total                         — `category_view_sums` under distinct ids (fails with D12c:
                                                                              `category_view_loses_merchant`); with the repaired ids no
                                                                              hypothesis is left (`category_view_sums_unique_ids`)
+  * the per-category `typeTotals` add up to the analysed bucket totals     — `type_income_eq`, `type_investment_eq`, `type_transfer_eq`,
+                                                                             `type_spending_eq` (the report's own chain, REGENERATED from
+                                                                             report.py, against the regenerated `categorize_amount`, every
+                                                                             number system) and `type_totals_add_up` (whole reports, exact)
   * all formats report the same figures                                    — FALSE for JSON (D12e): `json_summary_disagrees`
 "Renders without error" (D12a, D12f) is a totality statement about the implementation; it is checked by the
 oracle of the harness, not modelled here.
 -/
 import TallyVerif.Lemmas.Report
+import TallyVerif.Lemmas.ReportTypes
+import TallyVerif.Props.C06
 
 namespace TallyVerif.Props.C12
 open TallyVerif.Report
@@ -330,5 +336,98 @@ example : findAt dataPh (replaceAll jsPh "J".toList (replaceAll cssPh "c".toList
   decide +kernel
 example : spliceRepaired miniTemplate "c".toList "d=\"/* JS_PLACEHOLDER */\";".toList "J".toList
     = "<style>c</style><script>d=\"/* JS_PLACEHOLDER */\";</script><script>J</script>".toList := by decide +kernel
+
+/-! ### the per-category `typeTotals` (report.py carries its own copy of the classification)
+
+`Gen.ReportTypes.type_contrib` is REGENERATED from the if/elif chain of `build_category_view`'s transaction loop on every run
+(harness/translate/report_types.py), `Gen.ClassPy.categorize_amount` from classification.py.  The first four theorems hold for
+every number system (IEEE doubles included), amount and tag list; `type_totals_add_up` lifts them to whole reports over exact
+amounts: the per-category sums of the report data add up to the analysed totals. -/
+section typeTotals
+open TallyVerif TallyVerif.Gen TallyVerif.Gen.ReportTypes TallyVerif.ReportTypes TallyVerif.Totals
+variable (N : NumLike) (lower : String → String) (amount : N.α) (tags : Option (List String))
+
+/-- the report's income decision is `categorize_amount`'s, for every number system, amount and tag list -/
+theorem type_income_eq :
+    (type_contrib N lower amount tags).income = (ClassPy.categorize_amount N lower amount tags).income := by
+  simp only [type_contrib, ClassPy.categorize_amount, ClassPy.get_tags_lower, ClassPy.INCOME_TAG, ClassPy.INVESTMENT_TAG,
+    ClassPy.TRANSFER_TAG]
+  repeat' split
+  all_goals rfl
+
+/-- … and so is its investment decision (investment before transfer, as in `categorize_amount`) -/
+theorem type_investment_eq :
+    (type_contrib N lower amount tags).investment = (ClassPy.categorize_amount N lower amount tags).investment := by
+  simp only [type_contrib, ClassPy.categorize_amount, ClassPy.get_tags_lower, ClassPy.INCOME_TAG, ClassPy.INVESTMENT_TAG,
+    ClassPy.TRANSFER_TAG]
+  repeat' split
+  all_goals rfl
+
+/-- the transfer figure of the report is `transfer_in` for a positive amount and `transfer_out` otherwise - given that `abs`
+is the identity on positive amounts (true of doubles and of exact amounts) -/
+theorem type_transfer_eq (habs : ∀ a : N.α, N.gt a N.zero = true → N.abs a = a) :
+    (type_contrib N lower amount tags).transfer =
+      if N.gt amount N.zero = true then (ClassPy.categorize_amount N lower amount tags).transfer_in
+      else (ClassPy.categorize_amount N lower amount tags).transfer_out := by
+  simp only [type_contrib, ClassPy.categorize_amount, ClassPy.get_tags_lower, ClassPy.INCOME_TAG, ClassPy.INVESTMENT_TAG,
+    ClassPy.TRANSFER_TAG]
+  repeat' split
+  all_goals first | rfl | (simp_all; done)
+
+/-- spending: the report tests `amount >= 0`, the analysis `amount > 0`; they add the same figure given that an amount that
+is `>= 0` and not `> 0` IS zero and that `> 0` implies `>= 0` -/
+theorem type_spending_eq (hz : ∀ a : N.α, N.ge a N.zero = true → N.gt a N.zero = false → a = N.zero)
+    (hge : ∀ a : N.α, N.gt a N.zero = true → N.ge a N.zero = true) :
+    (type_contrib N lower amount tags).spending = (ClassPy.categorize_amount N lower amount tags).spending := by
+  simp only [type_contrib, ClassPy.categorize_amount, ClassPy.get_tags_lower, ClassPy.INCOME_TAG, ClassPy.INVESTMENT_TAG,
+    ClassPy.TRANSFER_TAG]
+  repeat' split
+  all_goals first | rfl | (simp_all; done) | (simp_all; exact hz _ ‹_› ‹_›)
+
+private theorem int_transfer (lower : String → String) (a : Int) (tags : Option (List String)) :
+    (type_contrib intNum lower a tags).transfer =
+      (ClassPy.categorize_amount intNum lower a tags).transfer_in + (ClassPy.categorize_amount intNum lower a tags).transfer_out := by
+  simp only [type_contrib, ClassPy.categorize_amount, ClassPy.get_tags_lower, ClassPy.INCOME_TAG, ClassPy.INVESTMENT_TAG,
+    ClassPy.TRANSFER_TAG]
+  repeat' split
+  all_goals simp_all <;> omega
+
+/-- **The per-category `typeTotals` of the report data add up to the analysed totals** (exact amounts, every list of
+transactions, every assignment of categories, every lower-casing function): income to income, investment to investment,
+transfer to transfers in + transfers out, spending to spending - the report's own chain (regenerated from report.py) against
+`analyze_transactions` over `categorize_amount` (regenerated from classification.py). -/
+theorem type_totals_add_up (lower : String → String) (l : List T) :
+    ttSum (·.income) (typeTotalsByCat intNum lower l) = (analyze intNum lower l).income ∧
+    ttSum (·.investment) (typeTotalsByCat intNum lower l) = (analyze intNum lower l).investment ∧
+    ttSum (·.transfer) (typeTotalsByCat intNum lower l) = (analyze intNum lower l).transfersIn + (analyze intNum lower l).transfersOut ∧
+    ttSum (·.spending) (typeTotalsByCat intNum lower l) = (analyze intNum lower l).spending := by
+  have hf := TallyVerif.Props.C06.flow_totals lower l
+  simp only [TallyVerif.Props.C06.flowOf, TallyVerif.Props.C06.flowSpec, TallyVerif.Props.C06.Flow.mk.injEq,
+    TallyVerif.Props.C06.cat] at hf
+  obtain ⟨h1, h2, -, h4, h5, h6, -, -⟩ := hf
+  refine ⟨?_, ?_, ?_, ?_⟩
+  · rw [type_totals_regroup lower _ rfl (fun _ _ => rfl), h1]
+    exact sumBy_congr _ _ l fun t => type_income_eq intNum lower t.amount t.tags
+  · rw [type_totals_regroup lower _ rfl (fun _ _ => rfl), h6]
+    exact sumBy_congr _ _ l fun t => type_investment_eq intNum lower t.amount t.tags
+  · rw [type_totals_regroup lower _ rfl (fun _ _ => rfl), h4, h5, ← sumBy_add]
+    exact sumBy_congr _ _ l fun t => int_transfer lower t.amount t.tags
+  · rw [type_totals_regroup lower _ rfl (fun _ _ => rfl), h2]
+    exact sumBy_congr _ _ l fun t => type_spending_eq intNum lower t.amount t.tags
+      (fun a h1 h2 => by simp only [decide_eq_true_eq, decide_eq_false_iff_not] at h1 h2 ⊢; omega)
+      (fun a h => by simp only [decide_eq_true_eq] at h ⊢; omega)
+
+def sampleTxns : List T :=
+  [⟨-2000, some ["Income"], "Emp", "Income", "Salary", "2025-01"⟩, ⟨500, some ["transfer", "INVESTMENT"], "Broker", "Savings", "", "2025-01"⟩,
+   ⟨-300, some ["Transfer"], "Bank", "Savings", "", "2025-02"⟩, ⟨1250, none, "Shop", "Food", "G", "2025-02"⟩, ⟨-40, some [], "Shop", "Food", "G", "2025-02"⟩,
+   ⟨0, some ["x"], "Zero", "Food", "G", "2025-03"⟩]
+
+/-- non-vacuity, with a transaction tagged both transfer and investment (investment wins on both sides) -/
+example : typeTotalsByCat intNum asciiLower sampleTxns =
+    [("Income", ⟨0, 2000, 0, 0⟩), ("Savings", ⟨0, 0, 500, 300⟩), ("Food", ⟨1250, 0, 0, 0⟩)] ∧
+    (analyze intNum asciiLower sampleTxns).investment = 500 ∧ (analyze intNum asciiLower sampleTxns).transfersOut = 300 := by
+  decide +kernel
+
+end typeTotals
 
 end TallyVerif.Props.C12
